@@ -62,6 +62,7 @@ type Stats struct {
 	Truncated      bool           `json:"truncated"`
 	WitnessReached bool           `json:"witness_reached"`
 	ConcTruncated  int            `json:"concretizations_truncated"`
+	LoopCuts       int            `json:"paths_cut_by_loop_cut"`
 }
 
 type Explorer struct {
